@@ -118,7 +118,7 @@ def trace_of(sc, o):
     return tr
 
 
-def validate(chk, name, traces, timeout=1500, workers=8):
+def validate(chk, name, traces, timeout=1500, workers=4):
     path = os.path.join(dc.TMP, "c34trace_%s_%d.json" % (name, os.getpid()))
     json.dump(traces, open(path, "w"))
     cfg = vkit.write_cfg(name, consts("trace"), invariants=INV + ["TraceReport"], init="TraceInit", next_="TraceNext")
@@ -145,7 +145,7 @@ def run(tier, seed):
     mcc = consts("mc", Reqs={1, 2}, TxIds={1, 2}, MaxInflight=1, SearchLens={1} if q else {1, 2}, Fates={"ok", "nx", "drop", "refused", "tc"},
                  TcpFates={"ok", "close"}, D=0)
     cfg = vkit.write_cfg("C34_mc", mcc, invariants=INV, properties=["EventuallyReported"], spec="FairSpec")
-    res = vkit.tlc("DnsClient", cfg, want_prints=False, timeout=1500, workers=8)
+    res = vkit.tlc("DnsClient", cfg, want_prints=False, timeout=1500, workers=4)
     chk.add_tlc("C34_mc", res)
     if res.distinct < 1000:
         raise vkit.InfraError("vacuous model run C34_mc: %d states" % res.distinct)
@@ -157,7 +157,7 @@ def run(tier, seed):
         if k not in seen and any(e["e"] == "send" for e in h):
             seen.add(k); hists.append(h)
     cfg = vkit.write_cfg("C34_gen", consts("gen", D=10 if q else 16), invariants=INV + ["EmitHist"])
-    res = vkit.tlc("DnsClient", cfg, simulate=40 if q else 500, depth=40, seed=seed, print_sink=sink, timeout=900, workers=8)
+    res = vkit.tlc("DnsClient", cfg, simulate=40 if q else 500, depth=40, seed=seed, print_sink=sink, timeout=900, workers=4)
     chk.add_tlc("C34_gen", res)
     if len(hists) < 20:
         raise vkit.InfraError("generator produced %d scripts" % len(hists))
